@@ -16,7 +16,7 @@
           <verbatim>
       decreases: <expr>
       prologue: <ghost statements>
-    at before|after "<anchor text>": <ghost statements>
+    at before|after "<anchor text>" [#n]: <ghost statements>    (#n: n-th occurrence in the body)
     subst "<old>" => "<new>"   (rule R8, reported)
   end
 
@@ -89,10 +89,11 @@ def parse(path):
                     cur["at"].append([int(ml.group(2)), buf, ml.group(1)])
                     target = buf
                     continue
-                mm = re.match(r'^(before_last|before|after)\s+"((?:[^"\\]|\\.)*)"\s*:\s*(.*)$', rest)
+                mm = re.match(r'^(before_last|before|after)\s+"((?:[^"\\]|\\.)*)"\s*(#\d+)?\s*:\s*(.*)$', rest)
                 if not mm: raise SpecError(f"{path}:{ln}: bad at")
-                buf = [mm.group(3)] if mm.group(3) else []
-                cur["at"].append([mm.group(2).encode().decode("unicode_escape"), buf, mm.group(1)])
+                buf = [mm.group(4)] if mm.group(4) else []
+                # `#n`: the n-th occurrence of the anchor text inside the body (1-based)
+                cur["at"].append([mm.group(2).encode().decode("unicode_escape"), buf, mm.group(1) + (mm.group(3) or "")])
                 target = buf
                 continue
             if key == "cut":
